@@ -741,6 +741,8 @@ pub fn demonitor(group_name: GroupName, actor: ActorId) {
     };
     let monitor = get_monitor();
     let relations = get_actor_relations(monitor, actor);
+    #[cfg(feature = "verif")]
+    crate::verif::point("pg.demonitor.fetched");
 
     if let Occupied(mut entry) = monitor.map.entry(key.clone()) {
         let mut relations_guard = relations.as_ref().map(lock_relations);
@@ -770,6 +772,8 @@ pub fn demonitor_scope(scope: ScopeName, actor: ActorId) {
     };
     let monitor = get_monitor();
     let relations = get_actor_relations(monitor, actor);
+    #[cfg(feature = "verif")]
+    crate::verif::point("pg.demonitor_scope.fetched");
 
     if let Occupied(mut entry) = monitor.world_listeners.entry(key.clone()) {
         let mut relations_guard = relations.as_ref().map(lock_relations);
